@@ -4,6 +4,7 @@ HARNESSES = {
     'cbl': dict(sources=['src/h_cbl.cpp']),
     'queue': dict(sources=['src/h_queue.cpp']),
     'disp': dict(sources=['src/h_disp.cpp']),
+    'cq': dict(sources=['src/h_cq.cpp']),
 }
 
 
@@ -127,6 +128,37 @@ prop('C04', 'exploration',
      'non-trivial = >=2 keys with listeners, a dispatch with a temporary key whose first listener takes its arguments by value, >=2 listeners on that key',
      COMMON_ASSUME + ['key/prototype universe is the 10-row configuration table', 'insert/remove through a handle of another event of the same dispatcher are not generated (documented UB)'],
      q, t)
+
+SCHED_ASSUME = COMMON_ASSUME + [
+    'schedules are sequentially consistent interleavings that switch only at Threading-policy operations (mutex, atomic, condition variable) and EVENTPP_VERIF_POINT hooks; weak-memory effects and torn reads are not explored',
+    'the condition variable is the harness model of std::condition_variable (lost notifications when nobody waits, optional spurious wake-ups, timeouts fired by the scheduler)',
+]
+q, t = std_stages('cq', 3000, 150000)
+prop('C06', 'exploration',
+     'generated thread programs (2-5 threads x <=5 calls: enqueue, DisableQueueNotify scopes, process, processOne, processIf, processUntil, takeEvent, peekEvent, clearEvents, emptyQueue) on EventQueue '
+     '(scheduler mutex and the library SpinLock) and HeterEventQueue, executed under a harness-owned scheduler (random walk, PCT, sticky random; schedule bytes are part of the case); oracle = per-event '
+     'ledger (exactly one of dispatched-once / taken-once / destroyed-inside-clearEvents), payload intact, call results, per (producer, consumer) FIFO when no predicate declines, no deadlock; '
+     'non-trivial = a producer call overlapped a consumer call, two consumer calls overlapped, and a preemption happened inside a critical section or at an unlocked pre-check',
+     SCHED_ASSUME, q, t,
+     technique='property-based testing of generated thread programs x generated schedules under a controlled cooperative scheduler, per-event history oracle')
+
+q, t = std_stages('cq', 4000, 200000)
+prop('C07', 'exploration',
+     'generated programs of waiter threads (wait / waitFor then drain), enqueuers (optionally inside nested DisableQueueNotify scopes) and processors under the harness-owned scheduler; '
+     'oracle = at every quiescent state (no runnable thread) a parked waiter with pending events and no DisableQueueNotify alive is a lost wake-up; otherwise waiters are released by sentinel enqueues; '
+     'every returned wait must have had a step with a possibly non-empty queue and no certainly-alive DisableQueueNotify; waitFor false only after its timeout fired; '
+     'non-trivial = a wait was in progress when an enqueue or the destruction of a DisableQueueNotify completed',
+     SCHED_ASSUME + ['liveness is decided as the safety property "no quiescent state with a parked waiter, pending events and notification enabled" (sound because the harness owns the scheduler and woken waiters drain)'],
+     q, t,
+     technique='property-based testing of generated thread programs x generated schedules under a controlled cooperative scheduler, quiescent-state oracle for lost wake-ups')
+
+q, t = multi_stages([('queue', 1500, 60000), ('cq', 3000, 150000)])
+prop('C11', 'exploration',
+     'single-threaded half: listeners and predicates of process/processOne/processIf/processUntil call emptyQueue()/waitFor(0) (queue harness); concurrent half: observer threads calling emptyQueue / waitFor while '
+     'other threads enqueue, process, processOne, takeEvent, clearEvents under the harness-owned scheduler; oracle = an observation of "empty" over steps [t0,t1] requires every event whose enqueue returned before t0 '
+     'to have had its listener return by t1, or to have been taken/cleared by a call begun before t1; non-trivial = an observation overlapped a processing call that was dispatching',
+     SCHED_ASSUME, q, t,
+     technique='property-based testing: lock-step queue model (single thread) + generated thread programs x schedules under a controlled scheduler with an interval oracle')
 
 
 _ALL = ['C%02d' % i for i in range(1, 21)]
